@@ -71,22 +71,30 @@ func resumeThread(L *LState, wrapped bool) int {
 		L.Push(LString(msg))
 		return 2
 	}
-	th.Parent = L
 	th.wrapped = wrapped
-	L.G.CurrentThread = th
-	if !th.isStarted() {
-		cf := th.stack.Last()
-		th.currentFrame = cf
-		th.SetTop(0)
-		nargs := L.GetTop() - 1
-		L.XMoveTo(th, nargs)
-		cf.NArgs = nargs
-		th.initCallFrame(cf)
-		th.Panic = panicWithoutTraceback
-	} else {
-		nargs := L.GetTop() - 1
-		L.XMoveTo(th, nargs)
-		th.adjustResumedValues(nargs)
+	if err := L.enterThread(th, func() {
+		if !th.isStarted() {
+			cf := th.stack.Last()
+			th.currentFrame = cf
+			th.SetTop(0)
+			nargs := L.GetTop() - 1
+			L.XMoveTo(th, nargs)
+			cf.NArgs = nargs
+			th.initCallFrame(cf)
+		} else {
+			nargs := L.GetTop() - 1
+			L.XMoveTo(th, nargs)
+			th.adjustResumedValues(nargs)
+		}
+	}); err != nil {
+		// the thread's registry could not take the arguments: the thread is dead now
+		if wrapped {
+			L.Error(err.Object, 0)
+			return 0
+		}
+		L.Push(LFalse)
+		L.Push(err.Object)
+		return 2
 	}
 	top := L.GetTop()
 	threadRun(th)
